@@ -140,7 +140,7 @@ func ruleWIRE(w *World, r *Report, only ...string) {
 			}
 			keep := false
 			for _, o := range only {
-				if shortName(top) == o {
+				if shortName(top) == o || inRegion(w.Fn(o), top) {
 					keep = true
 				}
 			}
@@ -536,7 +536,7 @@ func ruleSHLEN(w *World, r *Report) {
 		return
 	}
 	n := 0
-	for _, f := range withAnon(fn) {
+	for _, f := range region(fn) {
 		for _, b := range f.Blocks {
 			for _, in := range b.Instrs {
 				st, ok := in.(*ssa.Store)
@@ -563,7 +563,7 @@ func ruleSHLEN(w *World, r *Report) {
 							continue
 						}
 						lp := deepPath(lc.Call.Args[0])
-						if lp.Root == vp.Root && lp.Path == vp.Path && strings.HasSuffix(deepPath(pr[1]).Path, ".sliceByteCount") {
+						if lp.Root == vp.Root && lp.Path == vp.Path && strings.HasSuffix(deepPath(w.up(pr[1])).Path, ".sliceByteCount") {
 							ok2 = true
 						}
 					}
